@@ -100,6 +100,9 @@ Conc(s) ==
     \* more of the catalogue (list-of-macros.md): item with label, proof, tabular, accent, horizontal space, phantom, optional arguments
     [] s = "itl"  -> <<BS,"i","t","e","m","[">>
     [] s = "ilc"  -> <<"]">>
+    [] s = "ntm"  -> <<BS,"n","e","w","t","h","e","o","r","e","m","{","t","h","m","}","{","T","m","}">>
+    [] s = "bth"  -> <<BS,"b","e","g","i","n","{","t","h","m","}">>
+    [] s = "eth"  -> <<BS,"e","n","d","{","t","h","m","}">>
     [] s = "bp"   -> <<BS,"b","e","g","i","n","{","p","r","o","o","f","}">>
     [] s = "ep"   -> <<BS,"e","n","d","{","p","r","o","o","f","}">>
     [] s = "bt"   -> <<BS,"b","e","g","i","n","{","t","a","b","u","l","a","r","}","{","z","}">>
@@ -233,14 +236,14 @@ BodyOf(d) == CASE d = "dA" -> << <<"t","m">>, <<"t","n">> >>
                [] d = "rB" -> << <<"t","n">>, <<"a",1>> >>
                [] d = "dH" -> << <<"t","m">>, <<"a",1>> >>
                [] d = "rA" -> << <<"t","n">> >>
-BeginSyms == {"bi","be","bu","bl","bm","bp","bt"}
-EndSyms == {"ei","ee","eu","el","em","ep","et"}
+BeginSyms == {"bi","be","bu","bl","bm","bp","bt","bth"}
+EndSyms == {"ei","ee","eu","el","em","ep","et","eth"}
 EnvOf(s) == CASE s \in {"bi","ei"} -> "itemize" [] s \in {"be","ee"} -> "enumerate"
-              [] s \in {"bp","ep"} -> "proof" [] s \in {"bt","et"} -> "tabular"
+              [] s \in {"bth","eth"} -> "thm" [] s \in {"bp","ep"} -> "proof" [] s \in {"bt","et"} -> "tabular"
               [] s \in {"bu","eu"} -> "unk" [] s \in {"bl","el"} -> "lstlisting" [] s \in {"bm","em"} -> "minipage"
 
 AllSyms == Visible \cup ReplSyms \cup OpenSyms \cup BeginSyms \cup EndSyms \cup
-   {"sp","nl","tab","cm","lb","ix","uk","uk2","cb","skp","par","im","imp","ref","cite","skb","ske","q","fnq","it","vb","vrb","vrb2","ocb","ctc","rbk","up","uA","uBt","uH","hsu","phu","cmf","cmu","acb","ltE","ltD","gld","gls","ilc","tamp","tbsl","acc","hsp","hs0","phn","tbs"} \cup DefSyms \cup MathSyms \cup FaultSyms \cup LangSyms
+   {"sp","nl","tab","cm","lb","ix","uk","uk2","cb","skp","par","im","imp","ref","cite","skb","ske","q","fnq","it","vb","vrb","vrb2","ocb","ctc","rbk","up","uA","uBt","uH","hsu","phu","cmf","cmu","acb","ltE","ltD","gld","gls","ilc","tamp","tbsl","acc","hsp","hs0","phn","tbs","ntm"} \cup DefSyms \cup MathSyms \cup FaultSyms \cup LangSyms
 
 (***************************************************************************)
 (* Reference state                                                         *)
@@ -323,6 +326,7 @@ AllowedCtx(st, s) ==
   /\ (st.mode = "extr" /\ s \in {"fn", "xo"}) => ~InKind(st, "arg") /\ ~InKind(st, "sec") /\ ~InKind(st, "hid")
   /\ (st.mode = "extr" /\ InKind(st, "fn")) => s \in Visible \cup {"sp","nl","ob","cb","uk","cm","im","imp","cmf","tie","nd"}
   /\ s = "xo" => ~InKind(st, "fn") /\ ~InKind(st, "sec")
+  /\ s = "ntm" => st.ctx = <<>> /\ "thm-declared" \notin st.feat
   /\ s = "itl" => st.ctx # <<>> /\ Top(st).k = "env" /\ Top(st).last \in {"itemize", "enumerate"}
   /\ s = "ilc" => st.ctx # <<>> /\ Top(st).k = "ilab"
   /\ (st.ctx # <<>> /\ Top(st).k = "ilab") => s \in Visible \cup {"sp", "ilc"}
@@ -497,6 +501,9 @@ Step(st, s) ==
                        !.ctx[Len(st.ctx)] = Frame("hid", nf, fr.start)]
          ELSE [s1 EXCEPT !.ctx[Len(st.ctx)] = Frame("arg", fr.mark, fr.start)]
     \* & and \\ become a blank at their own position; an accent macro becomes the accented letter at the position of the macro
+    \* (a macro whose last parameter is optional looks for [ behind following blanks: the blanks are skipped as after a
+    \*  control word - documented behaviour, pinned by the repository's tests for \newtheorem)
+    [] s = "ntm" -> Emit(Feat(s1, "thm-declared"), <<Lay("v"), Lay("cw")>>)
     [] s \in {"tamp", "tbsl"} -> Emit(s1, <<Lay("x"), It("g", "ws", p0+1, p1, 0), Lay("x")>>)
     [] s = "acc" -> NoteText(Emit(s1, <<Lay("x"), It("c", "U+00E4", p0+1, p0+1, 1), Lay("x")>>), "U+00E4")
     [] s = "hsp" -> Emit(s1, <<Lay("x"), It("g", "ws", p0+1, p1, 0), Lay("x")>>)
@@ -586,6 +593,13 @@ Step(st, s) ==
              cnt == Len(SelectSeq(st.ctx, LAMBDA f : f.k = "env" /\ f.last = e)) IN
          IF e = "lstlisting" THEN [Emit(s1, <<It("g", "ws", p0+1, p1, 0), Lay("pb")>>) EXCEPT !.ctx = Append(@, Frame("rm", CurFlow(st), p0))]
          ELSE IF e = "minipage" THEN [Emit(s1, <<It("g", "ws", p0+1, p1, 0), Lay("pb")>>) EXCEPT !.ctx = Append(@, fr)]
+         ELSE IF e = "thm" THEN
+            \* \newtheorem{thm}{Tm}: a declared theorem-like environment forms a paragraph and starts with its title and a full stop;
+            \* used before its declaration it is an unknown environment
+            IF "thm-declared" \in st.feat THEN
+               [Emit(s1, <<It("g", "ws", p0+1, p1, 0), Lay("pb"), Lay("x"), It("f", "T", p0+1, p1, 0), It("f", "m", p0+1, p1, 0), It("f", ".", p0+1, p1, 0),
+                           It("g", "ws", p0+1, p1, 0), Lay("x")>>) EXCEPT !.ctx = Append(@, [fr EXCEPT !.nm = "declared"])]
+            ELSE [AddUnk(Emit(s1, <<Lay("v")>>), <<"t","h","m">>) EXCEPT !.ctx = Append(@, fr)]
          ELSE IF e = "proof" THEN
             \* amsthm: paragraph break, the title "Proof." and a line break
             [Emit(s1, <<It("g", "ws", p0+1, p1, 0), Lay("pb"), Lay("x"), It("f", "P", p0+1, p1, 0), It("f", "r", p0+1, p1, 0), It("f", "o", p0+1, p1, 0),
@@ -596,7 +610,7 @@ Step(st, s) ==
     [] s \in EndSyms ->
          LET e == EnvOf(s)
              s2 == [s1 EXCEPT !.ctx = SubSeq(@, 1, Len(@)-1)] IN
-         IF e \in {"minipage", "proof"} THEN Emit(s2, <<It("g", "ws", p0+1, p1, 0), Lay("pb")>>)
+         IF e \in {"minipage", "proof"} \/ (e = "thm" /\ "thm-declared" \in st.feat) THEN Emit(s2, <<It("g", "ws", p0+1, p1, 0), Lay("pb")>>)
          ELSE Emit(s2, <<Lay("v")>>)
     [] s = "it" ->
          \* item label: itemize has an empty default label; enumerate counts 1., 2., ... (a., b., ... when nested)
